@@ -224,6 +224,7 @@ def explore(ctx):
                      dict(key='translator'))
     shape_cases(ctx, yatiml, tr)
     defaults_family(ctx, yatiml)
+    plugins_family(ctx, yatiml)
     nhist = ctx.budget(40, 600)
     for h in range(nhist):
         funcs = []       # (kind, model, fn, type, inputs)
@@ -398,6 +399,63 @@ def defaults_family(ctx, yatiml):
             diff = [k for k in first if first[k] != second[k]]
             ctx.violation('a dump result depends on what was dumped before: {!r} vs {!r}'.format(
                 first[diff[0]], second[diff[0]]), dict(key='history-defaults', classes=text))
+
+
+def plugins_family(ctx, yatiml):
+    """one base class shared by several load functions, each with its OWN subclass of the same name (two
+    plug-ins both defining Circle(Shape)): a function knows only the subclass registered with it, whatever
+    other subclasses exist in the process and whenever they were created"""
+    rng = ctx.rng
+    import yaml as _yaml
+    for i in range(ctx.budget(12, 120)):
+        class Shape:
+            def __init__(self, name: str) -> None:
+                self.name = name
+
+        def mk(attr, plugin):
+            src = ('def __init__(self, name: str, {a}: int) -> None:\n'
+                   '    self.name = name\n    self.{a} = {a}\n').format(a=attr)
+            ns = {}
+            exec(src, ns)
+            return type('Circle', (Shape,), {'__init__': ns['__init__'], 'plugin': plugin})
+        attrs = rng.sample(['radius', 'r', 'size'], 2)
+        same_attr = rng.random() < 0.5
+        docs = ['{name: a}', '{name: a, %s: 1}' % attrs[0], '{name: a, %s: 1}' % (attrs[0] if same_attr else attrs[1]),
+                '{name: a, bogus: 2}']
+        plugins = []
+        outcomes = {}
+
+        def run(load):
+            out = []
+            for d in docs:
+                try:
+                    v = load(d)
+                    out.append(('ok', type(v).__name__, getattr(v, 'plugin', None), sorted(vars(v).items())))
+                except (yatiml.RecognitionError, _yaml.YAMLError):
+                    out.append(('rec',))
+                except Exception as e:  # noqa
+                    out.append(('other', type(e).__name__))
+            return out
+        # each plug-in alone (its classes are created, used, then the next plug-in appears)
+        for p in range(rng.randint(2, 3)):
+            circle = mk(attrs[0] if (same_attr or p == 0) else attrs[1], p)
+            load = yatiml.load_function(Shape, circle)
+            first = run(load)
+            plugins.append((p, load, first))
+        for p, load, first in plugins:
+            again = run(load)
+            ctx.case(('plugins', i, p, repr(again)[:100]), nontrivial=True)
+            ctx.count('plugin_calls')
+            if again != first:
+                k = [j for j in range(len(docs)) if again[j] != first[j]][0]
+                ctx.violation('a load function over Shape and its own Circle gives {} for {!r} once another '
+                              'function with another Circle(Shape) exists; it gave {} before'.format(
+                                  again[k], docs[k], first[k]),
+                              dict(key='plugins:{}'.format(again[k][0]), doc=docs[k]))
+                break
+            for r in again:
+                if r[0] == 'ok' and r[1] == 'Circle' and r[2] != p:
+                    ctx.violation('a load function returned the Circle of another function', dict(key='plugins:foreign'))
 
 
 def search(ctx, broken):
